@@ -378,6 +378,10 @@ class ndarray:
     def tolist(self): return [_scalar(v) for v in self.d] if self.d.ndim == 1 else [ndarray(r, _raw=True).tolist() for r in self.d]
 
     def astype(self, t):
+        if t is b_int:
+            t = int
+        elif t is b_float:
+            t = float
         if t in (int, _np.int64, _np.int32, 'int'):
             if self.d.dtype == object:
                 return ndarray(_np.array([core.sint(v) for v in self.d.reshape(-1)], dtype=_np.int64).reshape(self.d.shape), _raw=True)
